@@ -263,6 +263,46 @@ def _chord_cumsum(mod, f):
     return False, "unmodelled: displacement %s" % mod.code(d)[:80]
 
 
+def reverse_rules(mod, rep):
+    """FineContour.reverse: point k becomes point n-1-k, so the marked interval [startInd, endInd]
+    becomes [n-1-endInd, n-1-startInd] and the distance of new point k is total - old distance of
+    point n-1-k.  Decided by replaying the stores with symbols for the old state."""
+    f = mod.funcs.get("FineContour.reverse")
+    if f is None:
+        raise AnalysisError("FineContour.reverse not found")
+    from ..stores import effects
+    ctx = Context()
+    S, E, n = ctx.sym("S"), ctx.sym("E"), ctx.sym("n")
+    state = {"self.startInd": S, "self.endInd": E}
+    ex = Extractor(ctx, mod)
+    ex.on_attr = lambda d, node, env: state.get(d, ctx.sym(d))
+    ex.on_subscript = lambda node, value, env: n if mod.code(node) == K("self.positions.shape[0]") else ctx.sym(mod.code(node))
+    ex.on_call = lambda node, fname, args, kwargs, env: n if mod.code(node) in (K("len(self.positions)"), K("len(self)")) else ctx.sym(mod.code(node))
+    env = {}
+    texts = {}
+    try:
+        for e in effects(f.node, inline=False):
+            if e.kind != "store":
+                continue
+            t = mod.code(e.target)
+            texts[t] = mod.code(e.value)
+            if t in ("self.distance", "self.positions"):
+                continue
+            v = ex.expr(e.value, env)
+            if isinstance(e.target, ast.Name):
+                env[t] = v
+            else:
+                state[t] = v
+        ok = (state["self.startInd"] - (n - 1 - E)).is_zero() and (state["self.endInd"] - (n - 1 - S)).is_zero()
+        detail = "startInd -> %s, endInd -> %s" % (state["self.startInd"].show(), state["self.endInd"].show())
+    except AlgError as e:
+        ok, detail = False, "not representable: %s" % e
+    rep.ob("R3", "reversing a fine contour maps [startInd, endInd] to [n-1-endInd, n-1-startInd]", ok, f.site(), detail, key="dist/reverse/indices")
+    ok = texts.get("self.distance") == K("self.distance[-1] - self.distance[::-1]") and texts.get("self.positions") in (K("self.positions[::-1, :]"), K("self.positions[::-1]"))
+    rep.ob("R3", "reversing a fine contour reverses the points and re-measures the distance from the new first point (total - old, reversed)", ok, f.site(),
+           "distance: %s; positions: %s" % (texts.get("self.distance"), texts.get("self.positions")), key="dist/reverse/distance")
+
+
 def r3(prog, rep):
     mod = prog.module(EQ)
     f = mod.funcs.get("FineContour.calcDistance")
@@ -276,6 +316,7 @@ def r3(prog, rep):
             n = mod.code(inline_temporaries(f.node, s.value.args[0]))
             zero = n in (K("self.positions.shape[0]"), K("len(self.positions)"))
     rep.ob("R3", "distance[0] == 0 (array allocated as zeros, entries 1.. overwritten)", zero, f.site(), "", key="dist/zero")
+    reverse_rules(mod, rep)
     g = mod.funcs.get("FineContour.getDistance")
     if g is None:
         raise AnalysisError("FineContour.getDistance not found")
